@@ -65,8 +65,8 @@ MuxAsPinned(doc, req, obs) ==
 MuxMethodShadow(doc, req, obs, failed) ==
    /\ obs = MethodNotAllowed /\ failed = {"declared_request_not_routed"}
    /\ MuxAsPinned(doc, req, obs)
-   /\ \/ MuxObs(doc, req, TRUE, FALSE).k = "route"
-      \/ HasOverride(doc) /\ MuxObs(doc, req, TRUE, TRUE).k = "route"    \* compound with F-C09-5
+   /\ \/ MuxObs(MuxSees(doc), req, TRUE, FALSE).k = "route"
+      \/ HasOverride(doc) /\ MuxObs(MuxSees(doc), req, TRUE, TRUE).k = "route"    \* compound with F-C09-5
 
 (* F-C09-5: gorillamux NewRouter assigns a path item's own servers to the variable that  *)
 (* holds the document's servers, so every path after it in matching order is registered  *)
@@ -75,7 +75,7 @@ MuxMethodShadow(doc, req, obs, failed) ==
 (* model's, and the model with a loop-local server list answers differently.             *)
 MuxServersLeak(doc, req, obs) ==
    /\ HasOverride(doc) /\ MuxAsPinned(doc, req, obs)
-   /\ Gist(MuxObs(doc, req, FALSE, TRUE)) # Gist(CurMuxObs(doc, req))
+   /\ Gist(MuxObs(MuxSees(doc), req, FALSE, TRUE)) # Gist(CurMuxObs(doc, req))
 
 (* F-C09-9 (FIXED in /repo: 55b24e0; CurMuxObs now has portClobbers off, so the predicate  *)
 (* below can no longer hold -- a clobbered path parameter is reported as a violation):      *)
@@ -88,8 +88,8 @@ MuxServersLeak(doc, req, obs) ==
 MuxPortClobbers(doc, req, obs, failed) ==
    /\ obs.k = "route" /\ failed = {"route_does_not_reproduce_path"}
    /\ MuxAsPinned(doc, req, obs)
-   /\ MuxObsP(doc, req, FALSE, TRUE, FALSE) # CurMuxObs(doc, req)
-   /\ Failed(doc, req, MuxObsP(doc, req, FALSE, TRUE, FALSE)) = {}
+   /\ MuxObsP(MuxSees(doc), req, FALSE, TRUE, FALSE) # CurMuxObs(doc, req)
+   /\ Failed(doc, req, MuxObsP(MuxSees(doc), req, FALSE, TRUE, FALSE)) = {}
 
 (* F-C09-10: gorilla/mux refuses a route whose host template and path template share a    *)
 (* variable name ("duplicated route variable"), so gorillamux.NewRouter fails for a valid *)
@@ -117,7 +117,7 @@ LegacyAsModel(doc, req, obs) ==
 (*    split into three segments, the literal template "/a%20b" never matches "/a%20b".   *)
 LegacyUrlView(doc, req, obs) ==
    /\ obs.k \in {"route", "rerr"} /\ LegacyAsModel(doc, req, obs)
-   /\ LegacyObsH(doc, req, FALSE, FALSE, TRUE, TRUE, FALSE) # CurLegacyObs(doc, req)
+   /\ LegacyObsH(LegacySees2(doc), req, FALSE, FALSE, TRUE, TRUE, FALSE) # CurLegacyObs(doc, req)
 LegacyFragment(doc, req, obs) == Len(doc.servers) > 0 /\ FragGlued(req.u) /\ LegacyUrlView(doc, req, obs)
 LegacyDecoded(doc, req, obs) ==
    /\ Len(doc.servers) = 0 /\ \E i \in 1..Len(req.u.path) : IsEnc(req.u.path[i])
@@ -132,6 +132,15 @@ LegacyDecoded(doc, req, obs) ==
 LegacyIgnoresHost(doc, req, obs) ==
    /\ UForm(req.u) = "server" /\ obs.k = "rerr"
    /\ Gist(obs) = Gist(CurLegacyObs(doc, req))
+   /\ Gist(LegacyObsH(LegacySees2(doc), req, FALSE, FALSE, TRUE, TRUE, TRUE)) # Gist(CurLegacyObs(doc, req))
+
+(* F-C09-12: the legacy router treats every server variable as a wildcard: a URL whose     *)
+(* scheme or port is outside the enum of the variable in that position -- a URL under no   *)
+(* declared server (a host label outside its enum is an open region) -- is routed.  The observation is a route, it is what the  *)
+(* model of the code (enums erased) predicts, and the same model on the document with its  *)
+(* enums answers otherwise.                                                                *)
+LegacyIgnoresEnum(doc, req, obs) ==
+   /\ obs.k = "route" /\ LegacyAsModel(doc, req, obs)
    /\ Gist(LegacyObsH(doc, req, FALSE, FALSE, TRUE, TRUE, TRUE)) # Gist(CurLegacyObs(doc, req))
 
 (* F-C09-6: the legacy router never looks at path-level servers.  The observation is     *)
@@ -140,6 +149,7 @@ LegacyIgnoresHost(doc, req, obs) ==
 LegacyClass(doc, req, obs) ==
    IF LegacyUnknownMethodPanic(doc, req, obs) THEN "legacy_unknown_method_panic"
    ELSE IF LegacyIgnoresHost(doc, req, obs) THEN "legacy_ignores_request_host"
+   ELSE IF LegacyIgnoresEnum(doc, req, obs) THEN "legacy_ignores_server_variable_enum"
    ELSE IF LegacyFragment(doc, req, obs) THEN "legacy_fragment_glued_to_path"
    ELSE IF LegacyDecoded(doc, req, obs) THEN "legacy_noserver_decoded_path"
    ELSE IF obs.k = "route" /\ HasTempl(doc, obs.path) /\ LegacyEmptyBinding(doc, req, obs) THEN "legacy_empty_binding"
